@@ -9,6 +9,7 @@ CONSTANTS
   MaxOps = 5
   Faults = {}
   AllowGap = FALSE
+  Dups = FALSE
   AllowRestart = FALSE
   AllowReorg = TRUE
   Rollups = {}
